@@ -22,6 +22,7 @@ package geojson
 //@ func appendJSONFloat
 //@   props C05 C17
 //@   arith order
+//@   stmt object.go:"return strconv.AppendFloat(" assert C17Finite: !isNaN(f) && !isInf(f, 1) && !isInf(f, -1)   // C17: only finite numbers reach the number formatter; NaN, +Inf and -Inf are written as null
 
 //@ func appendJSONPoint
 //@   props C05 C17
@@ -373,3 +374,14 @@ package geojson
 //@   arith order
 //@   ensures Fresh: result != nil && !old($alloc)[result] && ftBase(result) == geometry
 //@   ensures Members: result.extra != nil ==> result.extra.members != "{}"
+
+// the embedded collection's own writer is never reached through the public kinds (each overrides it); it writes the literal null
+//@ func collection.AppendJSON
+//@   props C05 C17
+//@ func collection.JSON
+//@   props C05 C17
+//@ func collection.String
+//@   props C05 C17
+//@ func collection.MarshalJSON
+//@   props C05 C17
+//@   ensures result1 == nil
